@@ -52,8 +52,12 @@ func fnClientUnblock(ctx *cmdContext, args map[string]any) (output respValue, er
 		if isError {
 			reason = "UNBLOCKED client unblocked via CLIENT UNBLOCK"
 		}
-		client.unblock(reason, isError)
-		output.data = respInt(1)
+		if client.unblock(reason, isError) {
+			output.data = respInt(1)
+		} else {
+			// the client exists but is not blocked
+			output.data = respInt(0)
+		}
 	} else {
 		output.data = respInt(0)
 	}
